@@ -38,6 +38,19 @@ type Spec struct {
 	RequireProbes []string
 	// ExtraArgs are passed to every worker invocation.
 	ExtraArgs []string
+	// ExtraFn computes further worker arguments that depend on the environment.
+	ExtraFn func(e *Env) []string
+	// Recheck re-executes the first n units in fresh processes and requires identical unit digests
+	// (determinism slice inside every run of the check).
+	Recheck int
+}
+
+func (s *Spec) extra(e *Env) []string {
+	out := append([]string{}, s.ExtraArgs...)
+	if s.ExtraFn != nil {
+		out = append(out, s.ExtraFn(e)...)
+	}
+	return out
 }
 
 // Known is the committed known-findings file.
@@ -143,7 +156,7 @@ func check(e *Env, s *Spec) (int, error) {
 	if err := e.Prepare(s.Variants...); err != nil {
 		return 2, err
 	}
-	total, planInfo, err := e.Plan(s.Main, s.ID, s.ExtraArgs...)
+	total, planInfo, err := e.Plan(s.Main, s.ID, s.extra(e)...)
 	if err != nil {
 		return 2, err
 	}
@@ -156,7 +169,7 @@ func check(e *Env, s *Spec) (int, error) {
 		deadline = time.Now().Add(wall)
 	}
 	e.logf("%s %s: %d units planned %v", s.ID, e.Tier, total, planInfo)
-	opts := FanOpts{Variant: s.Main, Prop: s.ID, Units: Seq(total), Block: s.Block, Deadline: deadline, BlockWall: s.BlockWall, Extra: s.ExtraArgs}
+	opts := FanOpts{Variant: s.Main, Prop: s.ID, Units: Seq(total), Block: s.Block, Deadline: deadline, BlockWall: s.BlockWall, Extra: s.extra(e)}
 	if s.WorkerEnv != nil {
 		opts.Env = s.WorkerEnv(e)
 	}
@@ -178,6 +191,28 @@ func check(e *Env, s *Spec) (int, error) {
 	}
 	e.logf("%s: %d/%d units, %d evaluations, %d simulated steps, %d failure reports", s.ID, agg.Units, total, agg.Evals, agg.Steps, len(agg.Fails))
 	cov := map[string]interface{}{}
+	if s.Recheck > 0 && len(agg.Fails) == 0 {
+		n := s.Recheck
+		if n > total {
+			n = total
+		}
+		before := agg.DistinctCount("unit_digest")
+		o2 := opts
+		o2.Units = Seq(n)
+		o2.Deadline = time.Time{}
+		a2, err := e.Fan(o2)
+		if err != nil {
+			return 2, err
+		}
+		for h := range a2.Distinct["unit_digest"] {
+			if _, ok := agg.Distinct["unit_digest"][h]; !ok {
+				return 2, troublef("determinism failure of the machinery: re-executing units 0..%d in fresh processes gave a different event-log digest (%d digests before)", n-1, before)
+			}
+		}
+		cov["determinism_recheck_units"] = n
+		agg.Evals += a2.Evals
+		agg.Steps += a2.Steps
+	}
 	cov["units_planned"] = total
 	cov["units_run"] = agg.Units
 	cov["plan"] = planInfo
@@ -238,7 +273,7 @@ func (e *Env) processFailures(s *Spec, agg *Agg, known *Known) (*Outcome, error)
 		if err := writeJSON(cand, doc); err != nil {
 			return nil, troublef("%v", err)
 		}
-		rr := e.RunReplay(f.Variant, s.ID, cand, 0, env, s.ExtraArgs...)
+		rr := e.RunReplay(f.Variant, s.ID, cand, 0, env, s.extra(e)...)
 		if !match(f, rr) {
 			var got []string
 			for _, g := range rr.Fails {
@@ -349,7 +384,7 @@ func Replay(e *Env, s *Spec, doc *ReplayDoc, file string) int {
 	if variant == "" {
 		variant = s.Main
 	}
-	rr := e.RunReplay(variant, s.ID, file, 0, env, s.ExtraArgs...)
+	rr := e.RunReplay(variant, s.ID, file, 0, env, s.extra(e)...)
 	if rr.Trouble != "" {
 		fmt.Printf("TROUBLE property=%s %s\n", s.ID, rr.Trouble)
 		return 2
@@ -381,12 +416,12 @@ func Survey(e *Env, s *Spec) int {
 		fmt.Println("TROUBLE", err)
 		return 2
 	}
-	total, _, err := e.Plan(s.Main, s.ID, s.ExtraArgs...)
+	total, _, err := e.Plan(s.Main, s.ID, s.extra(e)...)
 	if err != nil {
 		fmt.Println("TROUBLE", err)
 		return 2
 	}
-	opts := FanOpts{Variant: s.Main, Prop: s.ID, Units: Seq(total), Block: s.Block, BlockWall: s.BlockWall, Extra: s.ExtraArgs, MaxFails: 100000}
+	opts := FanOpts{Variant: s.Main, Prop: s.ID, Units: Seq(total), Block: s.Block, BlockWall: s.BlockWall, Extra: s.extra(e), MaxFails: 100000}
 	if s.WorkerEnv != nil {
 		opts.Env = s.WorkerEnv(e)
 	}
